@@ -158,10 +158,15 @@ def fam_kernel_faults(ck, sc, i):
     e = 'AB'[(i // len(names)) % 2]
     k = (i // (2 * len(names))) % 6
     sub = type(ck)(ck.pid, ck.tier, ck.seed)
-    s = c10.run_history(name, ck.seed * 43 + i, [], fault=(e, k, -22))
+    # the kernel refuses the k-th request - or (every third history) does it and answers with something that is no verdict at all: a lone NLMSG_DONE, an empty
+    # datagram, a NOOP alone, a message of another kind
+    verdict_ = -22 if i % 3 else ('done', 'empty', 'noop', 'foreign')[(i // 3) % 4]
+    if isinstance(verdict_, str):
+        ck.count('kernel_refusal.answers_that_are_no_verdict')
+    s = c10.run_history(name, ck.seed * 43 + i, [], fault=(e, k, verdict_))
     sh = SH.Shadow(S.W.dh_log, None, check_dh=False)
     sh.feed(s.sim.wire)
-    return secrets_of(sh, ['psk-of-alice-73a9c1e5', 'psk-of-bob-0d4f8b26'], dh_log=S.W.dh_log), {'family': 'kernel-refusal', 'history': name, 'endpoint': e, 'k': k}, S.W.internal_errors
+    return secrets_of(sh, ['psk-of-alice-73a9c1e5', 'psk-of-bob-0d4f8b26'], dh_log=S.W.dh_log), {'family': 'kernel-refusal', 'history': name, 'endpoint': e, 'k': k, 'kernel_answer': verdict_}, S.W.internal_errors
 
 
 def fam_startup_refusals(ck, sc, i):
@@ -415,6 +420,7 @@ def verdict(ck):
         ck.floor(f'histories of family {f}', c[f'histories.{f}'], 20)
     ck.floor('daemon start-ups on a file that must be refused, ended with an ERROR record', c['configuration_file.refused_with_an_error_record'], 30)
     ck.floor('transmissions that failed locally while a request was being retransmitted', c['send_failures.failed_transmissions'], 150)
+    ck.floor('histories in which the kernel answered a request with something that is no verdict', c['kernel_refusal.answers_that_are_no_verdict'], 30)
     ck.floor('configurations with two entries for one pair of addresses', c['configuration.two_entries_for_one_pair_of_addresses'], 60)
     ck.floor('configurations rejected with secrets in the file', c['configuration.rejected'], 100)
     ck.floor('configurations whose secret was read by YAML as a number, a date or binary', c['configuration.secret_that_yaml_read_as_a_non_string'], 20)
